@@ -218,6 +218,9 @@ type C01FieldCase struct {
 	CL                   int64
 	HasBody, NoBody      bool
 	Gzip                 bool
+	// Limit is the peer's SETTINGS_MAX_HEADER_LIST_SIZE for this connection (0 = none). Set by
+	// the lane (it is a property of the connection a sequence of cases runs on).
+	Limit uint64
 }
 
 const (
@@ -301,7 +304,45 @@ func C01GenFieldCase(r *rand.Rand, profile string) *C01FieldCase {
 // C01FieldLine renders the case for the Lean driver: `c16fields <flavor> …`.
 func C01FieldLine(flavor string, tc *C01FieldCase) string {
 	return "c16fields " + flavor + " " + Hex(tc.Method) + " " + Hex(tc.RawURL) + " " + Hex(tc.Host) + " " + C01QMap(tc.Header) + " " +
-		strconv.FormatInt(tc.CL, 10) + " " + C01B(tc.HasBody) + " " + C01B(tc.NoBody) + " " + C01B(tc.Gzip)
+		strconv.FormatInt(tc.CL, 10) + " " + C01B(tc.HasBody) + " " + C01B(tc.NoBody) + " " + C01B(tc.Gzip) + " " + func() string {
+		if tc.Limit == 0 {
+			return "-"
+		}
+		return strconv.FormatUint(tc.Limit, 10)
+	}()
+}
+
+// C01MutateFieldCase derives the next request of a SEQUENCE on one connection from the previous
+// one: most header name/value pairs are kept (so that a stateful header compressor refers back
+// to what it sent — or believes it sent — before), a few are dropped, changed or added, and now
+// and then the header list is blown up (several 300-byte values) so that it exceeds a small peer
+// limit and the request is refused locally.
+func C01MutateFieldCase(r *rand.Rand, prev *C01FieldCase) *C01FieldCase {
+	tc := *prev
+	tc.Header = prev.Header.Clone()
+	if tc.Header == nil {
+		tc.Header = http.Header{}
+	}
+	for k := range tc.Header {
+		if strings.HasPrefix(k, "X-Big-") || r.Intn(6) == 0 {
+			delete(tc.Header, k)
+		}
+	}
+	for i, n := 0, r.Intn(4); i < n; i++ {
+		tc.Header[Pick(r, C01HdrNames)] = []string{Pick(r, C01HdrValues)}
+	}
+	if r.Intn(3) == 0 {
+		for i, n := 0, 1+r.Intn(12); i < n; i++ {
+			tc.Header["X-Big-"+strconv.Itoa(i)] = []string{strings.Repeat(string(rune('a'+i%26)), 100+r.Intn(300))}
+		}
+	}
+	if r.Intn(4) == 0 {
+		tc.Method = Pick(r, []string{"GET", "POST", "PUT", "DELETE"})
+	}
+	if r.Intn(5) == 0 {
+		tc.RawURL = "https://example.com/" + Pick(r, []string{"a", "b?x=1", "c/d", ""})
+	}
+	return &tc
 }
 
 func c01FieldList(f [][2]string) string {
